@@ -192,12 +192,13 @@ class CellCycleController:
             raise ValueError(f"Unknown resource: {resource_id}")
 
         lock = self.resources[resource_id]
+        previous_owner = lock.owner
         result = lock.try_acquire(owner=ctx.operation_id, priority=ctx.priority)
 
         if result == LockResult.ACQUIRED or result == LockResult.REENTRANT:
             ctx.add_acquired_resource(lock)
-            # Remove any dependency since we now own it
-            self.dependency_graph.remove_all_for_agent(ctx.operation_id)
+            # We no longer wait for this resource (others may still wait on us)
+            self.dependency_graph.remove_waiting(ctx.operation_id, resource_id)
 
         elif result == LockResult.BLOCKED:
             # Add to dependency graph
@@ -209,8 +210,9 @@ class CellCycleController:
 
         elif result == LockResult.PREEMPTED:
             ctx.add_acquired_resource(lock)
-            # Clear old dependencies
-            self.dependency_graph.remove_all_for_agent(ctx.operation_id)
+            # Whoever waited on the pre-empted owner for this resource now waits on us
+            self.dependency_graph.retarget(previous_owner, ctx.operation_id, resource_id)
+            self.dependency_graph.remove_waiting(ctx.operation_id, resource_id)
 
         return result
 
@@ -225,7 +227,7 @@ class CellCycleController:
         if released and lock.owner != ctx.operation_id:
             # Fully released; a re-entrant hold keeps its record until the last release
             del ctx.acquired_resources[resource_id]
-            self.dependency_graph.remove_all_for_agent(ctx.operation_id)
+            self.dependency_graph.remove_blocking(ctx.operation_id, resource_id)
 
         return released
 
